@@ -126,6 +126,7 @@ def parseObs (line : String) : Option Obs :=
     let lst := fun (k : String) => let v := kvOf rest k; let inner := ((v.drop 1).dropEnd 1).toString
                                     if inner.isEmpty then [] else inner.splitOn ","
     some (.fadapter (natOf a) (lst "pending") (lst "unacked") (lst "acked"))
+  | "F" :: _ :: "job" :: k :: st :: _ => some (.fjob (natOf k) (parseJStatus st))
   | "F" :: _ :: "consumer" :: c :: rest => some (.fconsumer (natOf c) (intOf (kvOf rest "submitted")) (intOf (kvOf rest "completed")))
   | _ => none
 
